@@ -978,7 +978,7 @@ class Engine:
                         if isb and others == {0}:
                             s2.tagfacts[atom] = 1
                             s2.pc.append((d, True, "branch"))
-                        elif boolish and not isb and others in ({0}, {1}):
+                        elif boolish and others in ({0}, {1}):
                             # the discriminant of a lazily conditional Option (`checked_sub`, `get`, ..) is its condition: "not Some" is "false".
                             # `others` is in the atom's value space; the condition d itself is true for atom value 1 unless the atom is flipped
                             only = 1 - next(iter(others))
@@ -1669,6 +1669,8 @@ def _m_from_le_bytes(eng, st, callee, args, ev, be=False):
     if ty is None:
         return NotImplemented
     a = args[0]
+    if INT_BITS.get(ty) == 8 and a[0] == "agg" and a[1] == "array" and len(a[5]) == 1:
+        return mk_cast("IntToInt", a[5][0], "u8", ty)          # one byte: the byte itself, reinterpreted
     return ("from_bytes", "be" if be else "le", ty, a)
 
 
